@@ -110,6 +110,10 @@ class OutputPool:
 
         if self.name is None:
             self.name = "{}_{}".format(self.__class__.__name__.lower(), self.seed)
+            # The default name is subject to the same check as a name given by the user
+            if os.path.exists(self.path):
+                raise ValueError("A pool with the name {} already exists in {}. You can use "
+                                 "OutputPool.open() to open it.".format(self.name, self.prefix))
 
     def get_batch(self, batch_index, output_names=None):
         """Return a batch from the stores of the pool.
